@@ -38,6 +38,11 @@ fn edit_nth(spec: &Spec, n: &mut usize, f: &mut dyn FnMut(&Spec) -> Option<Spec>
   }
 }
 
+/// Position of a byte that can never occur in UTF-8 (0xf8..=0xff, 0xc0, 0xc1).
+fn invalid_byte_position(b: &[u8]) -> Option<usize> {
+  b.iter().position(|x| *x >= 0xf8 || *x == 0xc0 || *x == 0xc1)
+}
+
 fn edit_text(rng: &mut Rng, t: &str) -> String {
   let mut s = t.to_string();
   match rng.below(3) {
@@ -178,9 +183,16 @@ fn edit_node(rng: &mut Rng, node: &Spec, pool: &Pool, kinds: &mut Vec<&'static s
       }
     }
     Spec::RawBytes { bytes } => {
-      kinds.push("leaf_bytes");
       let mut b = bytes.clone();
-      b.push(b'z');
+      if let Some(i) = invalid_byte_position(&b).filter(|_| rng.chance(2, 3)) {
+        // change a byte inside an invalid UTF-8 sequence into another invalid
+        // one: buffer() changes, the lossy source() does not
+        kinds.push("leaf_bytes_invalid_utf8");
+        b[i] = if b[i] == 0xff { 0xfe } else { 0xff };
+      } else {
+        kinds.push("leaf_bytes");
+        b.push(b'z');
+      }
       Spec::RawBytes { bytes: b }
     }
     Spec::RawBuffer { bytes } => {
@@ -188,9 +200,14 @@ fn edit_node(rng: &mut Rng, node: &Spec, pool: &Pool, kinds: &mut Vec<&'static s
         kinds.push("leaf_type");
         Spec::RawBytes { bytes: bytes.clone() }
       } else {
-        kinds.push("leaf_bytes");
         let mut b = bytes.clone();
-        b.insert(0, b'z');
+        if let Some(i) = invalid_byte_position(&b).filter(|_| rng.chance(2, 3)) {
+          kinds.push("leaf_bytes_invalid_utf8");
+          b[i] = if b[i] == 0xff { 0xfe } else { 0xff };
+        } else {
+          kinds.push("leaf_bytes");
+          b.insert(0, b'z');
+        }
         Spec::RawBuffer { bytes: b }
       }
     }
